@@ -38,6 +38,7 @@ func init() {
 			{ID: "R15p", Floor: 1, Doc: "the teeing opener answers a CID it has already written with the underlying opener's answer, not with an error or traversal.SkipMe: the walk still reads the block to follow its links", Run: ruleR15p},
 			{ID: "R15q", Floor: 1, Doc: "TraverseToFile creates its destination truncating (os.Create, or OpenFile with O_TRUNC): the file is the CAR of this traversal and nothing more", Run: ruleR15q},
 			{ID: "R15r", Floor: 1, Doc: "without an index the header announces none: in traversalCar.WriteV2Header no With*Padding / WithDataSize is applied after IndexOffset was set to zero", Run: ruleR15r},
+			{ID: "R15t", Floor: 1, Doc: "the announced size counts a block once, as the writing pass writes it once: the counting link system adds a section's size only when the block is loaded for the first time", Run: ruleR15t},
 			{ID: "R15c", Floor: 1, Doc: "size-mismatch guard", Run: ruleR15c},
 			{ID: "R15i", Floor: 8, Doc: "the announced section size and the written framing come from the same length formula (= R01b)", Run: ruleR01b},
 		},
@@ -349,8 +350,8 @@ func ruleR15b(c *Ctx, r *Report) {
 			if bad == "" {
 				// the length prefix written is the varint of n + len(cid)
 				okPrefix := false
-				for _, ci := range callsToFunc(fn, pkgVarint, "", "ToUvarint") {
-					if env.of(ci.Common().Args[0]).equal(affAtom("n").add(affAtom("C"), 1)) {
+				for _, x := range uvarintEncoded(fn, false) {
+					if env.of(x).equal(affAtom("n").add(affAtom("C"), 1)) {
 						okPrefix = true
 					}
 				}
